@@ -1,3 +1,4 @@
+import Noodles.Props.C02Indexed
 import Noodles.Bgzf.ReaderModel
 import Noodles.Bgzf.ReaderProof
 import Noodles.Props.C02w
